@@ -342,7 +342,31 @@ def gen_limit_body_program(rng, target=None, cuts=True):
     clauses.append(['z0', [], ['fail']])
     qv = [V('Q%d' % i) for i in range(ar)]
     queries = [['p', qv], ['c', qv]]
-    return {'clauses': clauses, 'queries': queries, 'shape': 'limit-body:%d' % est, 'relations': [rel], 'estimated_blocks': est}
+    # the same predicate with the padding goals (deterministic, succeed once, bind nothing visible) left out: its answers must be those
+    # of p - the answers of a clause do not depend on the length of its body (intrinsic oracle check_same_answers)
+    is_pad = lambda g: g in (call('s0'), call('s1', A('a')), eq(V('_'), A('k')), ['true'])
+    short = [g for g in spine if not is_pad(g)] + ctl + tail
+    for name, args, body in list(clauses):
+        if name == 'p':
+            clauses.append(['ps', copy.deepcopy(args), _conj(copy.deepcopy(short)) if body == _conj(goals()) else copy.deepcopy(body)])
+    queries.append(['ps', qv])
+    return {'clauses': clauses, 'queries': queries, 'shape': 'limit-body:%d' % est, 'relations': [rel], 'estimated_blocks': est, 'same_answers': [[0, 2]]}
+
+def check_same_answers(case, io):
+    """intrinsic oracle on the implementation alone: the queries paired in case['same_answers'] ask the same predicate with and without
+    the deterministic padding goals of its long body; the answer sequences must be equal"""
+    if not isinstance(io, dict) or 'queries' not in io:
+        return None
+    for i, j in case.get('same_answers', []):
+        if max(i, j) >= len(io['queries']):
+            continue
+        a, b = io['queries'][i], io['queries'][j]
+        if a['end'] != 'done' or b['end'] != 'done':
+            continue
+        if a['answers'] != b['answers'] or a['count'] != b['count']:
+            return ('the answers of %s (%d) differ from those of %s (%d), the same clauses without the deterministic padding goals: the answers '
+                    'depend on the length of the body' % (case['queries'][i][0], a['count'], case['queries'][j][0], b['count']))
+    return None
 
 # ------------------------------------------------------------------ three levels of local-cut constructs (C06)
 
